@@ -34,21 +34,34 @@ SingleParams ==
 
 Traits13 == AllTraits \cup {"Bogus"}
 
+\* Into(Type [, parameters]): every kind of thing in the type slot, then no / one / two parameters
+IntoTySet == {"req", "other", "path2", "int", "str_ident", "star", "none"}
+IntoParamNames == {"bound", "method", "bogus"}
+IntoSingles == { p \in SingleParams : p.name \in IntoParamNames }
+IntoMetas ==
+  { [t |-> "Into", form |-> "list", val |-> NoVal, uns |-> "no", params |-> <<>>, ty |-> y] : y \in IntoTySet }
+  \cup { [t |-> "Into", form |-> "list", val |-> NoVal, uns |-> "no", params |-> <<p>>, ty |-> y] : y \in {"req", "other"}, p \in IntoSingles }
+  \cup { [t |-> "Into", form |-> "list", val |-> NoVal, uns |-> "no", params |-> <<CanonParam(a), CanonParam(b)>>, ty |-> "req"] :
+           a \in IntoParamNames, b \in IntoParamNames }
+  \cup { [t |-> "Into", form |-> "list", val |-> NoVal, uns |-> "first", params |-> <<>>, ty |-> "req"] }
 \* the metas on offer in a context
 MetasFor(c) ==
   LET ts == IF c.pos = "type" THEN (c.inject \cup {"Bogus"}) ELSE Traits13
       unsSet == IF c.pos = "type" THEN {"no", "first"} ELSE {"no"}
-  IN { [t |-> t, form |-> "path", val |-> NoVal, uns |-> "no", params |-> <<>>] : t \in ts }
-     \cup { [t |-> t, form |-> "nv", val |-> v, uns |-> "no", params |-> <<>>] : t \in ts, v \in ValSet }
-     \cup { [t |-> t, form |-> "list", val |-> NoVal, uns |-> u, params |-> <<>>] : t \in ts, u \in unsSet }
-     \cup { [t |-> t, form |-> "list", val |-> NoVal, uns |-> u, params |-> <<p>>] : t \in ts, u \in unsSet, p \in SingleParams }
-     \cup { [t |-> t, form |-> "list", val |-> NoVal, uns |-> "no", params |-> <<CanonParam(a), CanonParam(b)>>] :
-              t \in ts, a \in ParamNames, b \in ParamNames }
+  IN (IF "Into" \in c.educed THEN IntoMetas ELSE {})
+     \cup { [t |-> t, form |-> "path", val |-> NoVal, uns |-> "no", params |-> <<>>, ty |-> "-"] : t \in ts }
+     \cup { [t |-> t, form |-> "nv", val |-> v, uns |-> "no", params |-> <<>>, ty |-> "-"] : t \in ts, v \in ValSet }
+     \cup { [t |-> t, form |-> "list", val |-> NoVal, uns |-> u, params |-> <<>>, ty |-> "-"] : t \in ts, u \in unsSet }
+     \* (Into's parameter lists start with a type: they come from IntoMetas)
+     \cup { [t |-> t, form |-> "list", val |-> NoVal, uns |-> u, params |-> <<p>>, ty |-> "-"] : t \in ts \ {"Into"}, u \in unsSet, p \in SingleParams }
+     \cup { [t |-> t, form |-> "list", val |-> NoVal, uns |-> "no", params |-> <<CanonParam(a), CanonParam(b)>>, ty |-> "-"] :
+              t \in ts \ {"Into"}, a \in ParamNames, b \in ParamNames }
      \cup (IF c.pos = "type"
-           THEN { [t |-> t, form |-> "list", val |-> NoVal, uns |-> "later", params |-> <<CanonParam(a)>>] : t \in ts, a \in {"name", "bound"} }
+           THEN { [t |-> t, form |-> "list", val |-> NoVal, uns |-> "later", params |-> <<CanonParam(a)>>, ty |-> "-"] : t \in ts \ {"Into"}, a \in {"name", "bound"} }
            ELSE {})
 
-NoMeta == [t |-> "-", form |-> "path", val |-> NoVal, uns |-> "no", params |-> <<>>]
+NoMeta == [t |-> "-", form |-> "path", val |-> NoVal, uns |-> "no", params |-> <<>>, ty |-> "-"]
+
 NoCtx == [pos |-> "-"]
 
 Init == ctx = NoCtx /\ meta = NoMeta /\ st = ScanInit /\ phase = "choose"
@@ -64,6 +77,9 @@ Scanning == phase = "scan" /\ st.verdict = "scanning"
 FormVerdict ==
   IF meta.t \notin AllTraits THEN "err"
   ELSE IF ctx.pos # "type" /\ meta.t \notin ctx.educed THEN "err"
+  ELSE IF meta.t = "Into" THEN
+    (IF ctx.kind = "union" \/ ctx.pos = "variant" \/ meta.form # "list" \/ meta.uns # "no" \/ ~IntoTypeOK(meta.ty)
+        \/ (ctx.pos = "field" /\ meta.ty # "req") THEN "err" ELSE "loop")
   ELSE LET tab == Table(ctx, meta.t) IN
     CASE meta.form = "path" -> IF tab.path THEN "ok" ELSE "err"
       [] meta.form = "nv" -> IF tab.nv # "" /\ Acc(tab.nv, "nv", meta.val) THEN "ok" ELSE "err"
@@ -112,6 +128,12 @@ ContextsQuick ==
         {"Debug", "Clone", "Copy", "PartialEq", "Eq", "Hash", "Default", "PartialOrd", "Ord", "Deref", "DerefMut"}, "union1"),
     Ctx("union", "field", {"Debug", "Clone", "Copy", "PartialEq", "Eq", "Hash", "Default"}, "pos", TRUE, FALSE, {}, "union1") }
 
+ContextsInto ==
+  { Ctx("struct", "type", {"Into"}, "pos", TRUE, FALSE, {"Into"}, "into1_struct"),
+    Ctx("struct", "field", {"Into"}, "pos", TRUE, FALSE, {}, "into1_struct"),
+    Ctx("enum", "field", {"Into"}, "pos", TRUE, FALSE, {}, "into1_enum"),
+    Ctx("enum", "variant", {"Into"}, "pos", TRUE, FALSE, {}, "into1_enum") }
+
 ContextsMore ==
   { Ctx("struct", "type", {"Clone", "Copy"}, "key", TRUE, FALSE, {"Clone", "Copy"}, "struct_named"),
     Ctx("struct", "field", {"Clone", "Copy"}, "key", TRUE, FALSE, {}, "struct_named"),
@@ -131,6 +153,8 @@ ContextsMore ==
     Ctx("struct", "field", {"Default"}, "key", FALSE, TRUE, {}, "struct_named_texpr"),
     Ctx("enum", "field", {"Default"}, "key", FALSE, FALSE, {}, "enum2_nobuild"),
     Ctx("enum", "variant", {"Default"}, "key", TRUE, TRUE, {}, "enum1_named_texpr") }
+
+ContextsQuickAll == ContextsQuick \cup ContextsInto
 
 ValsQuick == {"bool_t", "bool_f", "ident", "str_ident", "str_empty", "int", "negint", "path2", "preds", "str_preds", "star", "call"}
 =============================================================================
